@@ -6,14 +6,14 @@ use crate::util::*;
 use minicbor::data::{Int, Tag, Token};
 use minicbor::{Decoder, Encoder};
 
-enum OTok {
+pub enum OTok {
     Bool(bool), U8(u8), U16(u16), U32(u32), U64(u64), I8(i8), I16(i16), I32(i32), I64(i64), Int(Int),
     F16(f32), F32(f32), F64(f64), Bytes(Vec<u8>), String(String), Array(u64), Map(u64), Tag(Tag), Simple(u8),
     Break, Null, Undefined, BeginBytes, BeginString, BeginArray, BeginMap
 }
 
 impl OTok {
-    fn borrow(&self) -> Token<'_> {
+    pub fn borrow(&self) -> Token<'_> {
         match self {
             OTok::Bool(x) => Token::Bool(*x), OTok::U8(x) => Token::U8(*x), OTok::U16(x) => Token::U16(*x),
             OTok::U32(x) => Token::U32(*x), OTok::U64(x) => Token::U64(*x), OTok::I8(x) => Token::I8(*x),
@@ -34,7 +34,7 @@ fn bits(a: &str, digits: usize) -> Option<u64> {
     u64::from_str_radix(h, 16).ok()
 }
 
-fn parse(t: &str) -> Option<OTok> {
+pub fn parse(t: &str) -> Option<OTok> {
     let (k, a) = match t.split_once(':') { Some((k, a)) => (k, a), None => (t, "") };
     Some(match k {
         "bool" => match a { "T" => OTok::Bool(true), "F" => OTok::Bool(false), _ => return None },
